@@ -108,6 +108,7 @@ def main():
                     break
         shutil.rmtree(f"{VERIF}/harness/target-mut-seed-{name}", ignore_errors=True)
         shutil.rmtree(f"{VERIF}/harness/target-mut-seed-{name}-rel", ignore_errors=True)
+        shutil.rmtree(f"{VERIF}/harness/target-mut-seed-{name}-fuzz", ignore_errors=True)
     meta["checks"] = results
     meta["detected"] = any(v["exit"] == 1 for v in results.values())
     # keep
